@@ -178,6 +178,14 @@ pub fn predict(w: &MWorkflow, vals: &BTreeMap<String, i64>) -> Pred {
     p
 }
 
+/// prediction for a list of steps (one visit of them) under the given values
+pub fn predict_steps(steps: &[MStep], vals: &BTreeMap<String, i64>) -> Pred {
+    let mut p = Pred::default();
+    let env = Env { vals };
+    run_steps(steps, &env, &mut p, false);
+    p
+}
+
 /// is the model inside the fragment RefFlow interprets (no writers, no generators, no catches,
 /// no jumps, no step with both acts and branches)?
 pub fn in_control_fragment(w: &MWorkflow) -> bool {
